@@ -10,8 +10,8 @@ import (
 	"strings"
 
 	"github.com/ethereum/go-ethereum/common"
-	abcitypes "github.com/tendermint/tendermint/abci/types"
 	blst "github.com/supranational/blst/bindings/go"
+	abcitypes "github.com/tendermint/tendermint/abci/types"
 
 	"github.com/shutter-network/shutter/shlib/shcrypto"
 
